@@ -32,19 +32,20 @@ Theorem C10_path_recomputes_root :
 Proof. intros D lf nd e ls i d Hi Hd. apply (path_recomputes_root lf nd e (length ls)); auto. Qed.
 Print Assumptions C10_path_recomputes_root.
 
-(* PROVED (L1 verify, ALL tuples with num_leaves <= 2^63): the verifier of binary/verify.rs
-   (path_length_from_key + the three-phase loop) returns true exactly when the RFC recomputation
-   from the same (leaf data, proof set, index, count) is defined and equals the root.  `D_eqb` is
-   any boolean equality that reflects equality on digests.
-   NOTE on the bound: the statement holds of the model up to and including n = 2^63, but at exactly
-   n = 2^63 (and any index below it) the model is NOT faithful to verify.rs: the model computes
-   `2 ^ height` in N, the Rust code evaluates `1u64 << height` with height = 64, which panics with
-   overflow checks and wraps to 1 without (verify then rejects a valid 63-element proof).  The range
-   on which model and code agree is n < 2^63. *)
+(* PROVED (L1 verify, ALL tuples with num_leaves < 2^64, i.e. every u64 count): the verifier of
+   binary/verify.rs (path_length_from_key + the three-phase loop) returns true exactly when the RFC
+   recomputation from the same (leaf data, proof set, index, count) is defined and equals the root.
+   `D_eqb` is any boolean equality that reflects equality on digests.
+   NOTE: an earlier version of verify.rs evaluated `1u64 << height` with height = 64 for
+   num_leaves >= 2^63 (panic with overflow checks, wrap to 1 and rejection of valid proofs without);
+   this was found while proving this theorem and repaired by fix commit 8940979 (`checked_shl`, break
+   when the 2^64-sized subtree is reached).  The model computes `2 ^ height` in N: at height 64 the
+   block [0, 2^64) has end 2^64 - 1 >= num_leaves, so the model breaks exactly where the repaired code
+   does, and model and code agree on the whole u64 range. *)
 Theorem C10_verify_iff :
   forall (D : Type) (leaf_sum : bytes -> D) (node_sum : D -> D -> D) (D_eqb : D -> D -> bool),
     (forall x y, D_eqb x y = true <-> x = y) ->
-    forall (root : D) (data : bytes) (proof : list D) (i n : N), n <= 2 ^ 63 ->
+    forall (root : D) (data : bytes) (proof : list D) (i n : N), n < 2 ^ 64 ->
       verify leaf_sum node_sum D_eqb root data proof i n = true <->
       root_from_path node_sum (leaf_sum data) proof (N.to_nat i) (N.to_nat n) = Some root.
 Proof. intros D lf nd eqb He root data proof i n Hn. exact (verify_iff lf nd eqb He root data proof i n Hn). Qed.
@@ -55,7 +56,7 @@ Theorem C10_complete :
   forall (D : Type) (leaf_sum : bytes -> D) (node_sum : D -> D -> D) (empty_sum : D) (D_eqb : D -> D -> bool),
     (forall x y, D_eqb x y = true <-> x = y) ->
     forall (ls : list bytes) (i : N) (d : bytes),
-      lenN ls <= 2 ^ 63 -> nth_error ls (N.to_nat i) = Some d ->
+      lenN ls < 2 ^ 64 -> nth_error ls (N.to_nat i) = Some d ->
       verify leaf_sum node_sum D_eqb (MTH leaf_sum node_sum empty_sum ls) d
              (PATH leaf_sum node_sum empty_sum (N.to_nat i) ls) i (lenN ls) = true.
 Proof. intros D lf nd e eqb He ls i d Hb Hd. exact (verify_complete lf nd e eqb He ls i d Hb Hd). Qed.
@@ -69,7 +70,7 @@ Theorem C10_sound :
     (forall x y, D_eqb x y = true <-> x = y) ->
     (forall a b c d, node_sum a b = node_sum c d -> a = c /\ b = d) ->
     forall (ls : list bytes) (data : bytes) (proof : list D) (i : N),
-      lenN ls <= 2 ^ 63 ->
+      lenN ls < 2 ^ 64 ->
       verify leaf_sum node_sum D_eqb (MTH leaf_sum node_sum empty_sum ls) data proof i (lenN ls) = true ->
       exists d, nth_error ls (N.to_nat i) = Some d /\ leaf_sum data = leaf_sum d /\
                 proof = PATH leaf_sum node_sum empty_sum (N.to_nat i) ls.
